@@ -8,8 +8,8 @@ CHECKS = {
    technique="runtime monitoring: real installs on synthetic targets at swept addresses in crash-isolated child processes; behavioural oracle (unique fake id) + independent x86 interpreter over live memory; interposed mmap/mprotect log",
    text="Every explored placement (address region, page offset incl. page-straddling entries, pinned trampoline page, byte-granular fake displacement around +/-2^31, flavour) was really installed and called from 4 threads; each call returned the fake's unique id and an independent decoder followed the entry bytes to exactly the fake. Sampling of an infinite address space: held on the executions observed, not proved.",
    note="Linux x86-64 branch only; kernel honours free mmap hints; interpreter knows the listed jump idioms (unknown encodings are inconclusive)"),
- "C02": dict(engine="native", level="exploration", ref="DESIGN.md §5 C02",
-   technique="runtime monitoring: seeded random install histories over 80 real targets, reference stack model of 'most recent fake wins', byte images before/after every injector lifetime, many consecutive lifetimes per process; memcheck slice in thorough",
+ "C02": dict(engine="native+sim", level="exploration", ref="DESIGN.md §5 C02",
+   technique="runtime monitoring: seeded random install histories over 80 real targets, reference stack model of 'most recent fake wins', byte images before/after every injector lifetime, many consecutive lifetimes per process; guard bookkeeping of the arm64/arm/amd64 emitters checked in simulation; memcheck slice in thorough",
    text="Thousands of real injector lifetimes (0-12 installs, repeated targets, all install kinds, exit by drop / unwinding / verification panic / over-call panic) were executed; after each, every target's bytes equalled the pre-lifetime image and its behaviour was original, and during each the most recent install answered. Histories are sampled, not enumerated.",
    note="harness zeroes fake! call counters itself (independence from C07); x86-64 Linux"),
  "C03": dict(engine="native", level="exploration", ref="DESIGN.md §5 C03",
@@ -108,7 +108,7 @@ def main():
         },
         "engines": [
             {"name": "native", "path": "harness/native", "serves_properties": sorted(k for k, v in CHECKS.items() if "native" in v["engine"]), "kind_free_text": "Rust executable linking /repo's injectorpp; interposes mmap/munmap/mprotect/__clear_cache, shapes the address space, snapshots executable memory, interprets x86 jump idioms, assembly register probes, poll-counting executor; run in crash-isolated children by ./check"},
-            {"name": "sim", "path": "harness/sim", "serves_properties": ["C01", "C15", "C16"], "kind_free_text": "generated at check time: the unmodified emitter sources of /repo compiled on the host against a shim of injector_core::common over a simulated memory; A64, A32/T32 and x86 interpreters; llvm-mc cross-check"},
+            {"name": "sim", "path": "harness/sim", "serves_properties": ["C01", "C02", "C15", "C16"], "kind_free_text": "generated at check time: the unmodified emitter sources of /repo compiled on the host against a shim of injector_core::common over a simulated memory; A64, A32/T32 and x86 interpreters; llvm-mc cross-check"},
             {"name": "arms", "path": "lib/armsgen.py", "serves_properties": ["C08"], "kind_free_text": "parses macro_rules! fake at check time, generates and compiles one program per arm, drives them and compares traces with a reference model"},
         ],
         "checks": checks,
